@@ -3,7 +3,6 @@
   as exactly the same double.
 -/
 import GoluaVerif.Proofs.C17Num
-import GoluaVerif.Proofs.C17QuoteGo
 namespace GoluaVerif.Spec.Quote
 open GoluaVerif
 
@@ -12,6 +11,24 @@ theorem hexDigit_toNat (n : Nat) : (hexDigit n).toNat = if n % 16 < 10 then 48 +
   have h16 : n % 16 < 16 := Nat.mod_lt _ (by omega)
   rw [UInt8.toNat_ofNat']
   split <;> omega
+
+theorem hexVal_hexDigit (n : Nat) : hexVal (hexDigit n) = some (n % 16) := by
+  unfold hexDigit hexVal
+  have h16 : n % 16 < 16 := Nat.mod_lt _ (by omega)
+  by_cases h : n % 16 < 10
+  · simp only [h, if_true]
+    rw [UInt8.toNat_ofNat']
+    have : (48 + n % 16) % 2 ^ 8 = 48 + n % 16 := by omega
+    simp only [this]
+    have h1 : 48 ≤ 48 + n % 16 ∧ 48 + n % 16 ≤ 57 := by omega
+    simp [h1]
+  · simp only [h, if_false]
+    rw [UInt8.toNat_ofNat']
+    have : (87 + n % 16) % 2 ^ 8 = 87 + n % 16 := by omega
+    simp only [this]
+    have h1 : ¬ (48 ≤ 87 + n % 16 ∧ 87 + n % 16 ≤ 57) := by omega
+    have h2 : 97 ≤ 87 + n % 16 ∧ 87 + n % 16 ≤ 102 := by omega
+    simp [h1, h2]
 
 theorem hexDigit_not (n : Nat) : hexDigit n ≠ 112 ∧ hexDigit n ≠ 80 ∧ hexDigit n ≠ 46 := by
   have h := hexDigit_toNat n
@@ -40,7 +57,7 @@ theorem foldl_toHexF (k x a : Nat) : (toHexF k x).foldl hexStep (some a) = some 
   | zero => simp [toHexF, Nat.mod_one]
   | succ k ih =>
     simp only [toHexF, List.foldl_append, ih, List.foldl_cons, List.foldl_nil, hexStep,
-      Model.Quote.hexVal_hexDigit]
+      hexVal_hexDigit]
     congr 1
     have h1 : x % 16 ^ (k + 1) = (x / 16 % 16 ^ k) * 16 + x % 16 := by
       rw [Nat.pow_succ, Nat.mul_comm, Nat.mod_mul]; omega
